@@ -62,7 +62,7 @@ def sample_positions(rng, gname, n, dim, wide):
 class C10Remove(Harness):
     name = "C10Remove"
     prop = "C10"
-    bounds = ("Emulsion.remove_overlapping on n<=3 (quick) / 4 (thorough, 1D) droplets, dims 1-2, grid None or "
+    bounds = ("Emulsion.remove_overlapping on n<=3 droplets (quick; plus 4 droplets at concrete positions on a line) / 4 (thorough, 1D), dims 1-2, grid None or "
               "Cartesian with periodic axes; positions, radii>=0, min_distance (either sign) symbolic")
     stubs = ["py-pde CartesianGrid model (distance, difference_vector with wrap-count forking, window of 4 periods)"]
     cost = 5
@@ -71,7 +71,8 @@ class C10Remove(Harness):
         c = [dict(n=2, dim=1, grid="none", wide=True), dict(n=2, dim=1, grid="p1", wide=True),
              dict(n=3, dim=1, grid="none", wide=True),
              dict(n=2, dim=2, grid="none", wide=True), dict(n=2, dim=2, grid="pn", wide=True),
-             dict(n=2, dim=2, grid="pp", wide=False), dict(n=2, dim=3, grid="none", wide=True)]
+             dict(n=2, dim=2, grid="pp", wide=False), dict(n=2, dim=3, grid="none", wide=True),
+             dict(n=4, dim=1, grid="none", wide=True, fixedpos=True)]
         if tier == "thorough":
             c += [dict(n=3, dim=1, grid="p1", wide=False), dict(n=3, dim=2, grid="none", wide=True), dict(n=3, dim=2, grid="pn", wide=False),
                   dict(n=4, dim=1, grid="none", wide=True), dict(n=2, dim=2, grid="pp", wide=True),
@@ -88,7 +89,14 @@ class C10Remove(Harness):
     def body(self, env, cfg):
         n, dim = cfg["n"], cfg["dim"]
         grid, periods = make_grid(env, cfg["grid"])
-        P = positions(env, cfg["grid"], n, dim, cfg["wide"])
+        if cfg.get("fixedpos"):
+            # four droplets on a line at concrete, unevenly spaced positions (the nearest centre of the inner two is an
+            # outer droplet); radii and minimal distance symbolic
+            P = [[env.const(x)] for x in (F(-3), F(0), F(4), F(15, 2))]
+            for k in range(n):
+                env.real(f"x{k}_0", -8, 8)
+        else:
+            P = positions(env, cfg["grid"], n, dim, cfg["wide"])
         R = [env.real(f"r{k}", 0, 4) for k in range(n)]
         m = env.real("m", -4, 4)
         drops = [env.D.SphericalDroplet(P[k], R[k]) for k in range(n)]
